@@ -8,6 +8,7 @@ import EinoV.Gen.FactsC19
 import EinoV.Expected.C19
 import EinoV.Proofs.C02Settled
 import EinoV.Proofs.C19Merge
+import EinoV.Proofs.C19Route
 
 namespace EinoV.C19
 open EinoV.Gen
@@ -16,6 +17,7 @@ theorem facts_match :
     FactsC19.closesSurplus = Expected.C19.closesSurplus ∧
     FactsC19.closesReplaced = Expected.C19.closesReplaced ∧
     FactsC19.skippedChannelClosesValues = Expected.C19.skippedChannelClosesValues ∧
+    FactsC19.skipReleasesStored = Expected.C19.skipReleasesStored ∧
     FactsC19.closesNonDataValues = Expected.C19.closesNonDataValues ∧
     FactsC19.firstCopyExpr = Expected.C19.firstCopyExpr ∧
     FactsC19.recopyExpr = "toCopyNum+1" ∧
@@ -24,7 +26,9 @@ theorem facts_match :
     -- (the oracle evaluates the model with the expected one; both give the same verdicts)
     (Merge.CloseShape.ofFact FactsC19.mergeCloseLoop).sound = true ∧
     (Merge.CloseShape.ofFact Expected.C19.mergeCloseLoop).sound = true ∧
-    FactsC19.mergeRecvDrop = Expected.C19.mergeRecvDrop := by decide
+    FactsC19.mergeRecvDrop = Expected.C19.mergeRecvDrop ∧
+    -- updateValues lets the values sent to a target without data predecessors reach the closing arm
+    Route.Missing.ofFact FactsC19.missingDpsArm = Route.Missing.ofFact Expected.C19.missingDpsArm := by decide
 
 /-- **ledger_balanced.** For every task — any number of data successors `W`, branches `B`,
     selected targets `sel` (a multi-branch may select none, or several) and repeated targets
@@ -109,6 +113,157 @@ theorem no_routed_value_left_waiting_workflow {V} (ops : ValOps V) (r : Runner V
     (∃ o', (n, o') ∈ histOf r x (runEager ops r pick x).batches.reverse) ∨
       SkippedIn r (histOf r x (runEager ops r pick x).batches.reverse) n :=
   runEager_ancestors_settled ops r wf hs pick x v hres n ha
+
+/-! ### copies addressed to successors: data, control-only, and targets without any data input -/
+
+open EinoV.C19.Route in
+/-- **manager_routes_or_closes_every_copy.** `channelManager.updateValues` followed by the channel's
+    `reportValues` and by a later `reportSkip`, as read from the source (facts `missingDpsArm`,
+    `closesNonDataValues`, `skippedChannelClosesValues`, `skipReleasesStored`): for every target — with any set of data predecessors, or with
+    *no entry* in `dataPredecessors` because no data edge ends at it (the end node of a data-less
+    Workflow branch that works on its zero input or on static values) —, every sender, and
+    whether the target's channel is never skipped, already skipped when the stream arrives, or
+    turns skipped after it has stored the stream: a stream sent to the target is handed to the
+    node that consumes it, or closed.  It is never dropped. -/
+theorem manager_routes_or_closes_every_copy (dps : Option (List String)) (sender : String)
+    (skip : SkipTime) (consumer : Fate) (hc : consumer ≠ .dropped) :
+    routeCopy srcFacts dps sender skip consumer ≠ .dropped :=
+  routeCopy_ne_dropped (by decide) dps sender skip consumer hc
+
+open EinoV.C19.Route in
+/-- **workflow_copies_all_settled.** "every stream the framework created internally is drained or
+    closed … with fan-out copies, … branches that read only a prefix of their input, key and
+    field mappings": for every Workflow case of the family — any list of successors of the
+    producer, each tied to it by data+control / data only / control only / as the end of a
+    data-less branch, each taking its own data from START, from nothing, from static values, from
+    START or from the producer without control; any condition (value or prefix-reading, single
+    or multi-way) selecting any set of ends; END reading the producer's output or not; the caller
+    reading everything or any prefix — no reader derived from the producer's output is dropped,
+    their number is the one the ledger (`distribute`) creates, and the producer is released. -/
+theorem workflow_copies_all_settled (c : Case) :
+    (∀ x ∈ fates srcFacts c, x ≠ .dropped) ∧
+    (fates srcFacts c).length =
+      (distribute FactsC19.closesSurplus FactsC19.closesReplaced (writeToEntries c).length
+        (nBranches c) (selectedEntries c).length
+        ((selectedEntries c).filter (·.replaced)).length).created ∧
+    mustRelease srcFacts c = true :=
+  ⟨fates_ne_dropped (by decide) c,
+   (fates_length srcFacts c).trans (created_eq_ledger _ _ c _),
+   mustRelease_of_closing (by decide) c⟩
+
+open EinoV.C19.Route in
+/-- negation, general form: code that goes to the next target when the target has no entry in
+    `dataPredecessors` drops the copy made for every selected branch end that takes no data from
+    any node (the other facts as in the source). -/
+theorem skipped_target_drops_copy_of_dataless_branch_end (f : Facts) (hm : f.missing = .skipTarget)
+    (c : Case) (s : Succ) (hs : s ∈ c.succ) (hsel : isSelected c s = true)
+    (hd : s.data = .none ∨ s.data = .static) :
+    Fate.dropped ∈ fates f c := by
+  have hk : s.kind = .branchend := by
+    simp only [isSelected, isEnd, Bool.and_eq_true, beq_iff_eq] at hsel
+    exact hsel.1.2
+  have hdps : dpsOf s = none := by
+    rcases hd with hd | hd <;> simp [dpsOf, dataFromP, dataFromStart, hk, hd]
+  have hrep : dataFromP s = false := by
+    rcases hd with hd | hd <;> simp [dataFromP, hk, hd]
+  simp only [fates, List.mem_append, List.mem_map]
+  refine Or.inl (Or.inr ⟨⟨s.key, dpsOf s, .never, .drained, dataFromP s⟩, ?_, ?_⟩)
+  · simp only [entries, selectedEntries, List.mem_append, List.mem_map, List.mem_filter]
+    exact Or.inl ⟨s, ⟨hs, hsel⟩, rfl⟩
+  · simp only [entryFate, hrep, hdps, Bool.false_eq_true, ↓reduceIte]
+    exact routeCopy_skipTarget hm _ _ _
+
+open EinoV.C19.Route in
+/-- negation witness: a producer of three chunks whose only successors are the two ends of a
+    prefix-reading branch, the selected one taking no input at all; the caller reads the output to
+    the end.  With the fallback of the source the copy is closed and the producer released; code
+    that skips the target drops it, no other reader takes all the chunks: the producer stays
+    blocked.  (The harness runs this shape; family `workflow`, data shape `none`.) -/
+theorem skipped_target_witness :
+    let c : Case := { chunks := 3, succ := [⟨"n0", .branchend, .none⟩, ⟨"n1", .branchend, .start⟩],
+                      cond := .pfx, select := ["n0"], endData := false, consume := none }
+    let good : Facts := ⟨.emptySet, true, true, true, true, true⟩
+    let bad : Facts := ⟨.skipTarget, true, true, true, true, true⟩
+    fates good c = [.closedAfter 1 1, .closed] ∧ mustRelease good c = true ∧
+    fates bad c = [.closedAfter 1 1, .dropped] ∧ mustRelease bad c = false ∧ mustBlock bad c = true := by
+  decide
+
+/-! non-vacuity: a selected branch end that also takes the producer's data without control (its
+    branch copy is replaced and closed, the data copy is drained), a deselected one (skipped
+    channel: closed), a data successor, END reading a prefix -/
+open EinoV.C19.Route in
+example : fates ⟨.emptySet, true, true, true, true, true⟩
+    { chunks := 2, succ := [⟨"n0", .branchend, .pdata⟩, ⟨"n1", .branchend, .pdata⟩, ⟨"n2", .input, .start⟩],
+      cond := .multiPfx, select := ["n0"], endData := true, consume := some 1 }
+    = [.closedAfter 1 1, .closed, .drained, .closed, .drained, .closedAfter 0 1] := by decide
+
+/-! ### a value stored in a channel that is skipped later, and the other order -/
+
+open EinoV.C19.Route in
+/-- **cross_copies_all_settled.** The producer `A` and the node `B` that branches run side by
+    side; the ends of `B`'s branch take `A`'s stream without control, with control, or not at all;
+    END may read `A` directly.  For every such case — any ends, any selection, and **each order**
+    in which `A`'s value reaches an end's channel and the branch skips that end (value stored
+    first and the skip later; skip first and the value later; an order the run does not fix) —,
+    any reading point of the caller: no reader derived from `A`'s output is dropped, their number
+    is the ledger's, and `A`'s producer is released. -/
+theorem cross_copies_all_settled (c : XCase) :
+    (∀ x ∈ xFates srcFacts c, x ≠ .dropped) ∧
+    (xFates srcFacts c).length =
+      (distribute FactsC19.closesSurplus FactsC19.closesReplaced (xEntries c).length 0 0 0).created ∧
+    xMustRelease srcFacts c = true :=
+  ⟨xFates_ne_dropped (by decide) c,
+   (xFates_length srcFacts c).trans (xCreated_eq_ledger _ _ c),
+   xMustRelease_of_closing (by decide) c⟩
+
+open EinoV.C19.Route in
+/-- negation, general form (the defect repaired by fixes/C19-skip-releases-stored-streams.diff): if
+    `reportSkip` does not release what the channel already holds, the copy of `A`'s stream stored
+    in the channel of an end that only the branch controls, and that the branch does not select
+    afterwards, is dropped. -/
+theorem stored_copy_dropped_when_skip_does_not_release (f : Facts) (hf : f.skipReleasesStored = false)
+    (c : XCase) (ho : c.order = .valueFirst) (e : XEnd) (he : e ∈ c.ends) (hd : e.data = .adata)
+    (hsel : c.select.contains e.key = false) :
+    Fate.dropped ∈ xFates f c := by
+  simp only [xFates, List.mem_append, List.mem_map]
+  refine Or.inl ⟨⟨e.key, some ["A"], xSkip c e, if e.drains then .drained else endFate c.consume, false⟩, ?_, ?_⟩
+  · simp only [xEntries, List.mem_append, List.mem_map, List.mem_filter]
+    exact Or.inl ⟨e, ⟨he, by simp [xTakesA, hd]⟩, rfl⟩
+  · have hsel' : e.key ∉ c.select := by simpa using hsel
+    simp [xEntryFate, routeCopy, xSkip, xBranchOnly, hd, hsel', ho, skipFate, hf]
+
+open EinoV.C19.Route in
+/-- negation, general form, the other order: if `reportValues` on a skipped channel does not close
+    the streams it is handed (e.g. it closes the values it already holds instead), the copy that
+    arrives at an end the branch has already skipped is dropped. -/
+theorem arriving_copy_dropped_when_skipped_channel_does_not_close (f : Facts) (hf : f.skippedCloses = false)
+    (c : XCase) (ho : c.order = .skipFirst) (e : XEnd) (he : e ∈ c.ends) (hd : e.data = .adata)
+    (hsel : c.select.contains e.key = false) :
+    Fate.dropped ∈ xFates f c := by
+  simp only [xFates, List.mem_append, List.mem_map]
+  refine Or.inl ⟨⟨e.key, some ["A"], xSkip c e, if e.drains then .drained else endFate c.consume, false⟩, ?_, ?_⟩
+  · simp only [xEntries, List.mem_append, List.mem_map, List.mem_filter]
+    exact Or.inl ⟨e, ⟨he, by simp [xTakesA, hd]⟩, rfl⟩
+  · have hsel' : e.key ∉ c.select := by simpa using hsel
+    simp [xEntryFate, routeCopy, xSkip, xBranchOnly, hd, hsel', ho, skipFate, hf]
+
+open EinoV.C19.Route in
+/-- negation witnesses (the harness runs both shapes; family `cross`): `X` takes `A`'s stream
+    without control and is not selected, `Y` passes `A`'s stream on to END lazily, the caller reads
+    one chunk of five and closes.  Value first + a `reportSkip` that does not release: blocked.
+    Skip first + a `reportValues` that does not close what arrives: blocked.  With the closing
+    facts both are released. -/
+theorem skipped_later_witness :
+    let ends : List XEnd := [⟨"X", .adata, false⟩, ⟨"Y", .adata, false⟩]
+    let c1 : XCase := { chunks := 5, order := .valueFirst, ends := ends, select := ["Y"], endData := false, consume := some 1 }
+    let c2 : XCase := { c1 with order := .skipFirst }
+    let good : Facts := ⟨.emptySet, true, true, true, true, true⟩
+    xFates good c1 = [.closed, .closedAfter 0 1] ∧ xMustRelease good c1 = true ∧ xMustRelease good c2 = true ∧
+    xFates ⟨.emptySet, true, true, false, true, true⟩ c1 = [.dropped, .closedAfter 0 1] ∧
+    xMustBlock ⟨.emptySet, true, true, false, true, true⟩ c1 = true ∧
+    xFates ⟨.emptySet, true, false, true, true, true⟩ c2 = [.dropped, .closedAfter 0 1] ∧
+    xMustBlock ⟨.emptySet, true, false, true, true, true⟩ c2 = true := by
+  decide
 
 /-! ### merges: closing a merged reader early -/
 
